@@ -88,7 +88,10 @@ class GeminiProtocol(BaseGopherProtocol):
         # The meta of an error echoes the (percent-decoded) selector: keep
         # the status line one line.
         meta = str(meta).replace("\r", " ").replace("\n", " ")
-        self.wfile.write(f"{code} {meta}\r\n".encode(errors="backslashreplace"))
+        # <META> is at most 1024 bytes long (Gemini specification).
+        data = meta.encode(errors="backslashreplace")[:1024]
+        data = data.decode(errors="ignore").encode()
+        self.wfile.write(b"%d " % code + data + b"\r\n")
 
     def adjust_mimetype(self, mimetype: typing.Optional[str]) -> str:
         if mimetype is None:
